@@ -1424,6 +1424,18 @@ func (sc *siteScan) panicSites(fs *FuncSrc, pg *PG) {
 		}
 		return true
 	})
+	ast.Inspect(fs.Decl.Body, func(n ast.Node) bool {
+		if call, ok := n.(*ast.CallExpr); ok && len(call.Args) == 1 {
+			if fid, ok := call.Fun.(*ast.Ident); ok {
+				if b, ok := info.Uses[fid].(*types.Builtin); ok && b.Name() == "panic" {
+					if u, ok := ast.Unparen(call.Args[0]).(*ast.UnaryExpr); ok && u.Op == token.ARROW {
+						recvBound[call.Pos()] = true
+					}
+				}
+			}
+		}
+		return true
+	})
 	for _, n := range order {
 		sc.npanics++
 		where := c.P.pos(n.Pos)
@@ -1525,6 +1537,23 @@ func goroutineRecover(c *Check) {
 				}
 				return true
 			})
+			if !reraise {
+				// panic(<-ch) without a select
+				ast.Inspect(fs.Decl.Body, func(m ast.Node) bool {
+					if call, ok := m.(*ast.CallExpr); ok && len(call.Args) == 1 {
+						if fid, ok := call.Fun.(*ast.Ident); ok {
+							if b, ok := info.Uses[fid].(*types.Builtin); ok && b.Name() == "panic" {
+								if u, ok := ast.Unparen(call.Args[0]).(*ast.UnaryExpr); ok && u.Op == token.ARROW {
+									if cid, ok := ast.Unparen(u.X).(*ast.Ident); ok && info.Uses[cid] == ch {
+										reraise = true
+									}
+								}
+							}
+						}
+					}
+					return true
+				})
+			}
 			c.add("O-C09.3", "spawner "+name+" re-raises the forwarded panic", "the spawning function receives from the channel the goroutines forward to and panics with the received value on its own goroutine", reraise, where)
 			return true
 		})
